@@ -65,8 +65,10 @@ class HistoryProperty(Property):
                     new_ops = copy.deepcopy(ops)
                     del new_ops[i]["o"][k]
                     yield self._with(case, ops=new_ops)
-        # 4. simplify the spec
-        yield from self._spec_candidates(case)
+        # 4. simplify the spec (candidates must keep the generator's invariants: they answer soundness hazards)
+        for cand in self._spec_candidates(case):
+            if gen.spec_ok(cand["spec"]):
+                yield cand
 
     def _reindex(self, case, cand_ops, start, size):
         return copy.deepcopy(cand_ops)
